@@ -226,7 +226,8 @@ CHECKS = [
                 "(name/version, colours, cell size, kitty support, id probes) and input-draining readers on the simulated "
                 "terminal under the same owned schedules (optionally with a Process.start swap in between): every query must "
                 "return the reply the terminal gave to it, a pure reader must receive nothing, and no reply byte may be "
-                "left unread. Engine B, per start method fork/spawn/forkserver, runs real parent "
+                "left unread. Clause late_replies: replies later than the query timeout must be discarded before the next query "
+                "and never reach another caller. Engine B, per start method fork/spawn/forkserver, runs real parent "
                 "threads, children and grandchildren on a real controlling pty: check-and-set on shared memory inside "
                 "synchronized probes, and id-carrying queries that must each receive exactly their own reply. A "
                 "re-entrancy clause exercises the library's real lock objects.",
